@@ -406,6 +406,46 @@ func runC14(c *Ctx) {
 		r.Add(core.Obligation{Rule: "router-fields", Key: "router-fields every valid advertisement reaches the table", Func: core.FuncName(pp), Pos: c.P.Pos(core.PosOf(site.(ssa.Instruction))), Status: us,
 			Basis: "every path from the advertisement's IsValid to a nil return passes findOrCreateRouter", Detail: det})
 	}
+	// each option goes into its own slot: the receiver of every unmarshal call of the RA option parser is the field that
+	// belongs to the option type the call is reached under (source link-layer address 1, target 2, MTU 5, route
+	// information 24, RDNSS 25, search list 31; the prefix option 3 is decoded into a local that is appended)
+	r.Rule("option-dispatch", "every option type of the RA option parser is decoded into its own field", 6)
+	if fn := c.P.Func("", "newParseOptions"); fn != nil {
+		slot := map[string]string{"SourceLLA": "1", "TargetLLA": "2", "MTU": "5", "RouteInformation": "24", "RDNSS": "25", "DNSSearchList": "31"}
+		kgo := core.NewKeyGen()
+		for _, site := range callsIn(fn, nameIs("unmarshal")) {
+			ins := site.(ssa.Instruction)
+			recv := norm(site.Common().Args[0])
+			field := recv[strings.LastIndex(recv, ".")+1:]
+			want, known := slot[field]
+			if !strings.HasPrefix(recv, "local(options).") {
+				continue // a local of its own (the prefix option)
+			}
+			dnf := pathDNF(ins.Block())
+			if len(ins.Block().Preds) <= 1 {
+				dnf = []string{guardTexts(guardsOf(ins))}
+			}
+			var bad []string
+			for _, d := range dnf {
+				okPath := false
+				for _, t := range strings.Split(d, " && ") {
+					if known && regexp.MustCompile(`^\(arg0\[φ\]==`+want+`\)$`).MatchString(t) {
+						okPath = true
+					}
+				}
+				if !okPath {
+					bad = append(bad, d)
+				}
+			}
+			st, det := core.Proved, ""
+			if !known || len(bad) > 0 || len(dnf) == 0 {
+				st = core.Violated
+				det = "options." + field + " is filled by an unmarshal call that is also reached under " + strings.Join(bad, "  |  ") + ": an option of another type overwrites this slot (a target link-layer address option in an RA replaces the recorded source link-layer address, the router's MAC)"
+			}
+			r.Add(core.Obligation{Rule: "option-dispatch", Key: strings.TrimSuffix(kgo.Key("option-dispatch options."+field), "#0"), Func: core.FuncName(fn), Pos: c.P.Pos(core.PosOf(ins)), Status: st,
+				Basis: "reached only under option type == " + want, Detail: det})
+		}
+	}
 	// an option that is refused leaves no trace: in every option decoder (`unmarshal` with a pointer receiver in
 	// layer_icmp6_options.go) no store into the receiver can be followed by a return of an error. The caller logs the
 	// error and keeps the option struct, so a field written before the refusal is recorded for an option that a
